@@ -270,8 +270,21 @@ fn add_duplicate_occurrence<T: Eq + PartialEq + Clone>(
     }
 }
 
+/// How deeply array values may nest: `parse_setting_at` recurses once per level, so without a
+/// limit a long run of `[` overflows the stack.
+const MAX_ARRAY_NESTING: usize = 64;
+
 impl<'input> GrmtoolsSectionParser<'input> {
-    fn parse_setting(&'_ self, mut i: usize) -> Result<(Setting<Span>, usize), HeaderError<Span>> {
+    fn parse_setting(&'_ self, i: usize) -> Result<(Setting<Span>, usize), HeaderError<Span>> {
+        self.parse_setting_at(i, 0)
+    }
+
+    /// Parse a setting that lies inside `depth` enclosing arrays.
+    fn parse_setting_at(
+        &'_ self,
+        mut i: usize,
+        depth: usize,
+    ) -> Result<(Setting<Span>, usize), HeaderError<Span>> {
         i = self.parse_ws(i);
         match RE_DIGITS.find(&self.src[i..]) {
             Some(m) => {
@@ -304,6 +317,12 @@ impl<'input> GrmtoolsSectionParser<'input> {
                 }
                 None => {
                     if let Some(mut j) = self.lookahead_is("[", i) {
+                        if depth >= MAX_ARRAY_NESTING {
+                            return Err(HeaderError {
+                                kind: HeaderErrorKind::InvalidEntry("array nested too deeply"),
+                                locations: vec![Span::new(i, j)],
+                            });
+                        }
                         let mut vals = Vec::new();
                         let open_pos = j;
 
@@ -319,7 +338,7 @@ impl<'input> GrmtoolsSectionParser<'input> {
                                     end_pos,
                                 ));
                             }
-                            match self.parse_setting(j) {
+                            match self.parse_setting_at(j, depth + 1) {
                                 Ok((val, k)) => {
                                     vals.push(val);
                                     j = self.parse_ws(k);
